@@ -59,6 +59,21 @@ CHECKS = {
     note="Trusts TLC/SANY, Go toolchain, and that runtime.Caller(1) inside an argument expression names the statement's line. Compiled with default optimisation (inlining as the compiler chooses).",
     technique="TLA+ spec (Caller) enumerated by TLC; every case replayed through generated call sites",
     design="4/C11", engine="caller"),
+ "C13": dict(
+    text="Rolling.tla models Write/rotate one action per segment between instrumentation points, with clock ticks, directory outages and Stop/Start as environment steps. TLC checks for 2 writers (2-3 writes, 4-5 ticks, with/without outages and restarts, 0.1-10 M states) ExactlyOnce, NothingLost, NoDuplicateAnywhere, SequentialFresh, NotBeforeName, NameLaw, FdBound, FdZeroAfterStop, MarkerMonotone, FailKeepsFile and that no writer step can block. Shortest witness behaviours to six goal states and 250 (quick) / 3000 (thorough) simulated behaviours of up to 120 steps are replayed on a real RollingFileAppender: virtual clock, writer goroutines parked at every instrumentation point and released one specification step at a time, real directory renames; after every step directory listing, content of every file, /proc/self/fd, published handles and interval marker are compared with the specification state.",
+    note='Trusts TLC/SANY, Go toolchain, the verif hooks (virtual clock, park points in Write/rotate), kernel O_APPEND/rename semantics. Stop/Start only with no write in progress (premise). Simulation is seeded random; witness behaviours and the model checking are exhaustive within the stated constants.',
+    technique="TLA+ spec (Rolling) model-checked with TLC; witness + simulated behaviours replayed on the real appender with virtual clock and parked goroutines",
+    design="4/C13", engine="rollreplay"),
+ "C19": dict(
+    text="Same Rolling.tla machinery with directory outages placed anywhere relative to interval boundaries and writer steps (FailKeepsFile, ExactlyOnce, NothingLost, SequentialFresh with the stale-interval exception = creation retried only at the next boundary, HolderCanProceed/NonLockStepsEnabled = no step of a call can block), replayed with real renames of the log directory. SinkFaults.tla enumerates all 5-operation histories of Start/Append/Write/Stop (+ break/repair of the console stream) on File, Console and RollingFile appenders with healthy, failing (/dev/full, failing io.Writer) or missing targets; each is replayed under recover and a 3 s watchdog: every call returns, Start yields ok or error, healthy targets gain exactly one line per delivery.",
+    note='Trusts TLC/SANY, Go toolchain, the verif hooks (virtual clock, park points in Write/rotate), kernel O_APPEND/rename semantics. Stop/Start only with no write in progress (premise). Simulation is seeded random; witness behaviours and the model checking are exhaustive within the stated constants.',
+    technique="TLA+ specs (Rolling with outages, SinkFaults) model-checked with TLC; behaviours/histories replayed on real appenders",
+    design="4/C19", engine="rollreplay"),
+ "C14": dict(
+    text="Retention.tla states which entries of a directory population the retention scan removes (own = <name>.<14 digits>, regular file, older than the cut-off) and TLC enumerates every population of <= 2 (quick) / 3 (thorough) entries over 13 name classes x {file, directory} x {older, younger} with the survivors (CleanupExact). Each population is materialised with real mtimes 2 s - 1 h from the cut-off, max ages 1-720 h, three appender names (incl. a .wf sibling name), the scan is run synchronously through the verif hook and the survivors compared; the file being written must survive. A live run triggers the real asynchronous scan through rotations of a RollingFile logger with separate=true under the virtual clock.",
+    note="Trusts TLC/SANY, Go toolchain, VerifClearExpired hook, os.Chtimes and a wall clock that does not jump by seconds during a case.",
+    technique="TLA+ spec (Retention) enumerated by TLC; every population replayed on the real retention scan",
+    design="4/C14", engine="retention"),
 }
 
 NOT_YET = {}
